@@ -12,15 +12,20 @@ LEAN_TARGETS = ["Asynkit.Props.C02", "Asynkit.Lemmas.GenEqC02"]
 PROPS_FILES = ["Asynkit/Props/C02.lean", "Asynkit/Lemmas/GenEqC02.lean"]
 DRIVERS = ["Proto"]
 TRUSTED = [
-    "translator/wrappers2lean.py regenerates Asynkit/Gen/Wrappers.lean from coroutine.py on every run (coro_iter, coro_await, awaitmethod, awaitmethod_iter, await_sync, syncfunction, aiter_sync; statement by statement, generators/coroutines segment by segment); Lemmas/GenEqC02.lean proves each generated segment equal to the model's transition; trusted there: the meaning of the method calls (Model/WrapRt.lean)",
-    "Lean 4.33 kernel; axioms ⊆ {propext, Classical.choice, Quot.sound} (audited per theorem each run)",
-    "hand-written models Asynkit/Model/{Proto,Wrappers}.lean of coroutine.py (CoroStart, coro_await, coro_iter, "
-    "awaitmethod, awaitmethod_iter) and monitor.py (_asend, aawait, BoundMonitor), tied to the code by this run's "
-    "differential correspondence (lean/Drivers/Proto.lean; bodies via Model/ProtoProg.lean)",
-    "MODELLED, NOT VERIFIED: CPython 3.12 generator/coroutine object envelope (send/throw/close on "
+    'translated, not trusted: coro_iter, coro_await, awaitmethod, awaitmethod_iter are re-translated from '
+    'coroutine.py on every run, statement by statement and segment by segment (translator/wrappers2lean.py -> '
+    "Gen/Wrappers.lean), and proved equal to the model's wrapper transformers (Lemmas/GenEqC02.lean, 10 "
+    'theorems); CoroStart and the Monitor/BoundMonitor awaitables are translated by the units of C01 (GenEqC01W) '
+    'and C07 (GenEqC07), audited by those checks',
+    'Lean 4.33 kernel; axioms ⊆ {propext, Classical.choice, Quot.sound} (audited per theorem each run)',
+    'hand-written: Asynkit/Model/Proto.lean (coroutine-object envelope, nativeAwait) and the runtime vocabulary '
+    'Model/WrapRt.lean (what x.send/throw/close, CoroStart(...) and a tail `await x` mean); every wrapper, '
+    "translated or not, is additionally run against the code by this run's differential correspondence "
+    '(lean/Drivers/Proto.lean; bodies via Model/ProtoProg.lean)',
+    'MODELLED, NOT VERIFIED: CPython 3.12 generator/coroutine object envelope (send/throw/close on '
     "created/suspended/finished objects, PEP 479, 'ignored GeneratorExit', 'cannot reuse'), coroutine_wrapper "
-    "forwarding, PEP-380 delegation as the meaning of `await` (validated by the `ref` stream of the correspondence), "
-    "asyncio.Future.__await__ handshake flag",
+    'forwarding, PEP-380 delegation as the meaning of `await` (validated by the `ref` stream of the '
+    'correspondence), asyncio.Future.__await__ handshake flag',
 ]
 ASSUMPTIONS = [
     "no out-of-band data is sent through a Monitor and the awaited coroutine's first step does not itself raise OOBData "
@@ -40,7 +45,7 @@ RULE = ("case = (body program, wrapper stack of depth 1..3, drive sequence of 1.
 
 PURE = ["citer", "coro_await", "am", "ami", "mon", "bmon", "masend", "ref"]
 EAGER = ["cs_await", "cs_ascoro"]
-SENDS = ["s:0", "s:0", "s:3", "s:4"]
+SENDS = ["s:0", "s:0", "s:3", "s:4", "s:0", "s:3", "s:9001", "s:9003"]
 
 
 def gen_case(rng, thorough=False):
@@ -118,6 +123,8 @@ def judge(layers, stmts, drives, loop, resolve_held=False):
         tags.add("OOBData-not-addressed-to-a-monitor")
     if any(d == "t:FE" for d in rd):
         tags.add("falsy-exception-thrown")
+    if any(d in ("s:9001", "s:9002", "s:9003") for d in rd[1:]):
+        tags.add("exception-instance-sent-as-value")
     if bad is None and info.get("held_probe_fail"):
         bad = ("a Future held by CoroStart cannot be awaited by anybody else (blocking flag left set)",
                "second awaiter is suspended on the future", info["held_probe_fail"])
